@@ -29,7 +29,7 @@ def run(c, prop, what, thorough):
         trace = c.path("cfg_%d.ndjson" % k)
         summ = c.path("cfg_%d.json" % k)
         c.run_driver(["cfgs", "-atoms", atoms, "-trace", trace, "-out", summ, "-n", "20000" if thorough else "5000",
-                      "-cases", cases, "-stride", "1" if thorough else "8"], env={"VERIF_SEED": str(c.seed * 1000 + k)})
+                      "-cases", cases, "-stride", "1" if thorough else "12"], env={"VERIF_SEED": str(c.seed * 1000 + k)})
         s = json.load(open(summ))
         bad, res = c.validate_trace("TraceConfig", TC_CFG % prop, trace, tag="TraceConfig_%s_%d" % (prop, k), timeout=3000)
         if bad:
